@@ -308,6 +308,11 @@ class SimPool:
         self._spawned += 1
         p = sim.spawn("p%dw%d" % (self.no, k), self._make_worker(k, *self._init))
         self.workers.append(p)
+        if self.copy:
+            # a forked worker keeps the module-level state of the library as it was at fork time
+            if not getattr(sim, "_tracked", None):
+                sim.track_globals(_mutable_module_globals())
+            sim.fork_view(p, _copy_global)
         n = sim.flock.inherit(0, p.pid, lambda p=p: (not p.done) or False)
         if n:
             sim.count("fork-inherited-open-handles", n)
@@ -486,6 +491,30 @@ class SimPool:
 
     def __exit__(self, *a):
         self.terminate()
+
+
+def _mutable_module_globals():
+    """(module, name) of every module-level mutable container in the library under test (caches,
+    registries, memo tables - whatever the current tree has)."""
+    out = []
+    for mname, mod in sorted(sys.modules.items()):
+        if mod is None or not (mname == "cooler" or mname.startswith("cooler.")):
+            continue
+        for name, val in sorted(vars(mod).items()):
+            if name.startswith("__"):
+                continue
+            if isinstance(val, (dict, list, set, bytearray, collections.OrderedDict, collections.defaultdict,
+                                collections.deque)):
+                out.append((mod, name))
+    return out
+
+
+def _copy_global(val):
+    try:
+        return dill.loads(dill.dumps(val))
+    except Exception:
+        import copy as _c
+        return _c.copy(val)
 
 
 def _pool_factory(*a, **kw):
